@@ -184,7 +184,9 @@ def corrupt(rng, mode, c, root):
         cand = [e for e in es if not e["rep"]]
         if not cand:
             return None
-        e = rng.choice(cand)
+        # a glob keyword whose pattern matches nothing is given all the same: prefer repeating one of those
+        nomatch = [e for e in cand if b".nomatch" in e["text"]]
+        e = rng.choice(nomatch) if nomatch and rng.random() < 0.5 else rng.choice(cand)
         es.insert(rng.randint(0, len(es)), e)
     elif kind == "retype":
         i = rng.randrange(len(es))
